@@ -176,3 +176,25 @@ package atree
 //@        as(a.root, *ArrayDataSlab).header.slabID == old(hdrOf(a.root).slabID) && wfADS(as(a.root, *ArrayDataSlab))
 //@   ensures[C10] err == nil && old(is(a.root, *ArrayDataSlab) && as(a.root, *ArrayDataSlab).inlined) ==> notified > old(notified)
 //@   modifies heap, ghost.sto, ghost.stored, ghost.touched, ghost.notified, alloc
+
+//@ # ---- stale handles (C11): the updater closure installed on a child re-validates before touching the parent.
+//@ # Free variables of the closure: a (parent), c (child notifier), vid, child, maxInlineSize.
+//@ pred parentUntouched() = sto == old(sto) && touched == old(touched) && stored == old(stored) &&
+//@      heapeq(ArrayDataSlab.all) && heapeq(ArrayMetaDataSlab.all) && heapeq(Array.root) && heapeq(Array.mutableElementIndex)
+
+//@ func Array.setCallbackWithChild#1() (found, err)  serves C10 C11
+//@   requires a != nil && c != nil && a.Storage != nil && isArr(a.root)
+//@   assume rootReady(a) because "tree invariant at the root of the parent (composition)"
+//@   ensures[C11] !old(has(a.mutableElementIndex, vid)) && (old(inlinedC(c)) || old(inlinableC(c, maxInlineSize))) ==> !found && err == nil && parentUntouched()
+//@   ensures[C10] !old(inlinedC(c)) && !old(inlinableC(c, maxInlineSize)) ==> found && err == nil && parentUntouched()
+//@   ensures[C11] !found && err == nil ==> parentUntouched()
+//@   modifies heap, ghost.sto, ghost.stored, ghost.touched, ghost.notified, alloc
+
+//@ # Inlined() / Inlinable() of the two container kinds, read from the heap
+//@ pred inlinedC(c mutableValueNotifier) = ite(is(c, *Array), rootInlinedA(as(c, *Array).root), rootInlinedM(as(c, *OrderedMap).root))
+//@ pred rootInlinedA(r ArraySlab) = is(r, *ArrayDataSlab) && as(r, *ArrayDataSlab).inlined
+//@ pred rootInlinedM(r MapSlab) = is(r, *MapDataSlab) && as(r, *MapDataSlab).inlined
+//@ pred inlinableC(c mutableValueNotifier, max int) = ite(is(c, *Array), rootInlinableA(as(c, *Array).root, max), rootInlinableM(as(c, *OrderedMap).root, max))
+//@ pred rootInlinableA(r ArraySlab, max int) = is(r, *ArrayDataSlab) && as(r, *ArrayDataSlab).extraData != nil &&
+//@      ite(as(r, *ArrayDataSlab).inlined, as(r, *ArrayDataSlab).header.size, as(r, *ArrayDataSlab).header.size - 5 + 17) <= max
+//@ pred rootInlinableM(r MapSlab, max int) = is(r, *MapDataSlab) && as(r, *MapDataSlab).extraData != nil && 14 + elsSize(as(r, *MapDataSlab).elements) <= max
